@@ -163,6 +163,15 @@ func (d *Defs) Define(prefix, sort, body string) string {
 	return n
 }
 
+// DefineGlobal names a closed term at top level even while a binder is open.
+func (d *Defs) DefineGlobal(prefix, sort, body string) string {
+	save := d.inline
+	d.inline = 0
+	n := d.Define(prefix, sort, body)
+	d.inline = save
+	return n
+}
+
 func isAtom(s string) bool {
 	if s == "" {
 		return false
